@@ -173,8 +173,62 @@ fn privacy_programs() -> Vec<(String, bool, String)> {
     out
 }
 
+// ---- scheduler (property C11): the WASM-side handle driven sample by sample --------------------------------
+/// schedule `tasks` (time, id) from "sample 0 global scope", then run samples 1..=last; returns the first
+/// violated clause of the per-sample contract
+fn sched_violation(tasks: &[(f64, i64)], last: u64) -> Option<String> {
+    use mimium_scheduler::WasmSchedulerHandle;
+    let handle = WasmSchedulerHandle::default();
+    let map = handle.into_wasm_plugin_fn_map();
+    let schedule = map.get("_mimium_schedule_at").unwrap();
+    for (t, id) in tasks {
+        schedule(&[*t, *id as f64]);
+    }
+    let mut seen: Vec<i64> = vec![];
+    for now in 1..=last {
+        handle.set_current_time(now);
+        let due = handle.drain_due_tasks();
+        let mut expect: Vec<i64> = tasks.iter().filter(|(t, _)| (*t as u64) == now).map(|(_, id)| *id).collect();
+        let mut got = due.clone();
+        expect.sort();
+        got.sort();
+        if expect != got {
+            return Some(format!("drain_due_tasks/schedule_trampoline: at sample {now} expected tasks {expect:?} (time truncated == sample) but got {got:?}"));
+        }
+        seen.extend(due);
+    }
+    None
+}
+fn sched_cases() -> Vec<(Vec<(f64, i64)>, u64)> {
+    vec![
+        (vec![(3.0, 1), (5.0, 2)], 8),
+        (vec![(2.0, 1), (2.0, 2), (2.0, 3)], 4),
+        (vec![(4.0, 1), (2.0, 2), (3.0, 3), (2.0, 4)], 6),
+        (vec![(2.5, 1), (2.9, 2), (3.1, 3)], 6),
+        (vec![(1.0, 1)], 3),
+        (vec![(6.0, 1), (1.0, 2), (6.0, 3), (1.0, 4), (3.0, 5)], 8),
+    ]
+}
+
 fn main() {
     let args: Vec<String> = std::env::args().collect();
+    if args.get(1).map(|s| s.as_str()) == Some("sched-search") || args.get(1).map(|s| s.as_str()) == Some("sched-run") {
+        let only: Option<usize> = args.get(2).and_then(|s| s.parse().ok());
+        for (i, (tasks, last)) in sched_cases().iter().enumerate() {
+            if let Some(o) = only { if o != i { continue; } }
+            let r = std::panic::catch_unwind(|| sched_violation(tasks, *last)).unwrap_or(Some("panic".into()));
+            if args[1] == "sched-run" {
+                match r { Some(c) => println!("FAILS tasks={tasks:?} clause={c}"), None => println!("HOLDS tasks={tasks:?}") }
+                return;
+            }
+            if let Some(c) = r {
+                println!("FOUND index={i} value={tasks:?} clause={c}");
+                return;
+            }
+        }
+        println!("NONE tried={}", sched_cases().len());
+        return;
+    }
     if args.get(1).map(|s| s.as_str()) == Some("privacy-search") || args.get(1).map(|s| s.as_str()) == Some("privacy-run") {
         let progs = privacy_programs();
         let only: Option<usize> = args.get(2).and_then(|s| s.parse().ok());
